@@ -91,7 +91,12 @@ func worker(args []string) int {
 	w.conn.Timeout = 120 * time.Second
 	for si, s := range j.Sites {
 		for _, k := range casesFor(s, len(w.bs), j.Quick) {
-			w.runCase(s, k)
+			w.runCase(s, k, false)
+			if (k.B*5+k.M+s.Idx)%24 == 0 {
+				// the same exchange with a client that shuts down its sending
+				// half after the request and a handler that takes a moment
+				w.runCase(s, k, true)
+			}
 		}
 		w.out.Done = append(w.out.Done, si)
 	}
@@ -130,8 +135,12 @@ func alive(r *lib.Resp) bool {
 	return err == nil && string(b) == aliveBody
 }
 
-func (w *wk) runCase(s Site, k Case) {
+func (w *wk) runCase(s Site, k Case, half bool) {
 	b := w.bs[k.B]
+	if half {
+		b.Spec.DelayMs = 25
+		b.Name += "/half-closed-client"
+	}
 	method := methods[k.M]
 	path := pathClasses[k.Path]
 	w.journalCase(fmt.Sprintf("site=%s pages=%v host=%s behaviour=%s %s %s ae=%v", s.Name(), s.Pages, s.host(), b.Name, method, path, k.AE))
@@ -147,7 +156,18 @@ func (w *wk) runCase(s Site, k Case) {
 	raw := lib.BuildReq(method, path, s.host(), body, hdr...)
 
 	w.logs.Take() // nothing before this point belongs to the case
-	resp := w.conn.Do(method, raw)
+	var resp *lib.Resp
+	if half {
+		hc, err := lib.Dial(w.addr)
+		if err != nil {
+			resp = &lib.Resp{Err: err}
+		} else {
+			resp = hc.DoHalfClose(method, raw)
+		}
+		w.count("half_closed_client_cases", 1)
+	} else {
+		resp = w.conn.Do(method, raw)
+	}
 	// barrier: a plain request on the same connection. If the server closed
 	// the connection after the case (allowed), retry once on a fresh one.
 	bar := w.conn.Get("GET", "/alive.txt", s.host())
